@@ -184,11 +184,13 @@ def md_row_concrete(row, pal):
         return None
     d = {}
     for key, kind, vals in row:
-        d[pal.key(key)] = md_val_concrete(kind, vals, pal)
+        d[pal.key(key)] = md_val_concrete(kind, vals, pal, key)
     return d
 
 
-def md_val_concrete(kind, vals, pal):
+def md_val_concrete(kind, vals, pal, key=None):
+    if key in ID_VALUED_KEYS and kind == "l":
+        return [pal.id(v) for v in vals]
     if kind == "s":
         return pal.s(vals[0])
     if kind == "l":
@@ -206,7 +208,12 @@ def md_val_concrete(kind, vals, pal):
     raise ValueError(kind)
 
 
-def md_val_abstract(v, pal):
+ID_VALUED_KEYS = ("collapsed_ids", "Path")      # categories whose list entries are IDs / labels
+
+
+def md_val_abstract(v, pal, key=None):
+    if key in ID_VALUED_KEYS and isinstance(v, (list, tuple, np.ndarray)) and all(isinstance(x, str) for x in v):
+        return "l", [pal.id_inv(str(x)) for x in v]
     if v is None:
         return "z", []
     if isinstance(v, (bool, np.bool_)):
@@ -249,7 +256,7 @@ def md_row_abstract(d, pal):
         return []
     out = []
     for k, v in d.items():
-        kind, vals = md_val_abstract(v, pal)
+        kind, vals = md_val_abstract(v, pal, k)
         key = pal.key_inv(k) if isinstance(k, str) else "UNKKEY"
         out.append([key, kind, vals])
     out.sort(key=lambda e: e[0])
@@ -297,6 +304,9 @@ def project(t, pal, with_lookups=True, scale=None):
     samp = [pal.id_inv(x) for x in samp_c]
     dense = np.asarray(tt.matrix_data.toarray())
     shape = [int(dense.shape[0]), int(dense.shape[1])]
+    if dense.size == 0 and (len(obs) == 0 or len(samp) == 0):
+        # an empty axis: there are no cells, whatever shape the matrix object reports
+        dense = np.zeros((len(obs), len(samp)))
     mat = [[pal.val_inv(x, scale) for x in row] for row in dense]
     omd_raw = tt.metadata(axis="observation")
     smd_raw = tt.metadata(axis="sample")
